@@ -535,6 +535,48 @@ impl CompactEndPositions {
     }
 }
 
+/// Verification hooks (feature `verif-hooks`): the private constructors and read-only views of
+/// the private fields so the external harness can compare tables and cursor state with its model.
+#[cfg(feature = "verif-hooks")]
+impl CompactEndPositions {
+    /// `CompactEndPositions::try_build`.
+    pub fn verif_try_build(positions: &[u32], text_len: usize) -> Option<Self> {
+        Self::try_build(positions, text_len)
+    }
+
+    /// `CompactEndPositions::empty`.
+    pub fn verif_empty(text_len: usize) -> Self {
+        Self::empty(text_len)
+    }
+
+    /// `[next_open_idx, adv_cumulative, ib_word_idx, ib_ones_before, last_ib_arg, last_ib_result]`.
+    pub fn verif_cursor_state(&self) -> [usize; 6] {
+        let c = self.cursor.get();
+        [
+            c.next_open_idx,
+            c.adv_cumulative,
+            c.ib_word_idx,
+            c.ib_ones_before,
+            c.last_ib_arg,
+            c.last_ib_result,
+        ]
+    }
+
+    /// `(ib_words, ib_len, ib_select_samples, ib_ones, advance_words, num_opens, advance_rank)`.
+    #[allow(clippy::type_complexity)]
+    pub fn verif_dump(&self) -> (Vec<u64>, usize, Vec<u32>, usize, Vec<u64>, usize, Vec<u32>) {
+        (
+            self.ib_words.clone(),
+            self.ib_len,
+            self.ib_select_samples.clone(),
+            self.ib_ones,
+            self.advance_words.clone(),
+            self.num_opens,
+            self.advance_rank.clone(),
+        )
+    }
+}
+
 #[cfg(test)]
 mod tests {
     use super::*;
